@@ -54,6 +54,10 @@ CLAIMED = {
    text="An independent lexical model (split/resolve/compare by elements) is compared with os.FS's name<->OS-path mapping over a completely enumerated finite space: 5 conventions (linux; windows with volumes '', C:, D:, a UNC share, driven on Linux through the verif shims) x 9 Sub-root chains (look-alike prefixes, a space, multi-element Sub) x every string of up to 3 elements over {a, root, rootx, tmp, ., .., '', a\\b, ..\\x, C:} with leading/trailing separator variants (about 3 million evaluations): exact root-joined-name result, lexical containment, refusal of invalid names, round trip, and for FromOSPath 'fails, or returns a valid FS path for the same location; must fail for relative paths, other volumes and paths outside the root'. A helper process per chain runs real calls under strace: every path that reaches the kernel lies inside the root and OS errors name the caller's relative path.",
    note="Windows conventions are exercised lexically only (no Windows kernel; errors_windows.go never runs). Non-absolute Windows inputs are not given to the shim because the public function filters them with the host's IsAbs. Known: names containing a backslash under the Windows convention (F32).",
    technique="exhaustive enumeration of a finite string space against an independent lexical model; strace as kernel-boundary monitor"),
+ "C14": dict(level="fault_enumeration", design="4/C14",
+   text="Single-fault enumeration at the store boundary: every history (a stride of the C01 situation matrix and of the C02 handle matrix in quick, all of them in thorough, plus 60/1500 seeded random histories incl. handle I/O) runs fault-free once on keyvalue.FS over the harness's plain Store and over the real mem TransactionStore behind a wrapper that reports injected failures the way real stores do, counting store-level calls (Get, Set, Transaction, Commit, lazy Data, lazy ReadDirNames); it is then re-run once per call index with that call failing. The operation in which the fault fired must return a non-nil error unless it demonstrably did not need the call (same result and final state as the fault-free run), nothing may panic or hang afterwards (watchdog + goroutine dump), and the faulted FS's view must equal a fresh keyvalue.FS over the same store.",
+   note="One fault per run; the error is a distinct non-sentinel value. The S3 example store cannot be built offline; a harness store patterned on it takes the plain-Store path.",
+   technique="exhaustive single-fault injection over counted store-call indices with a work-done oracle and store-vs-view comparison"),
 }
 NOT_YET = "monitor not built yet in this session (see DESIGN.md section 4 for the planned runtime monitor)"
 props = [json.loads(l)["id"] for l in open("/verif/properties.jsonl")]
